@@ -133,6 +133,7 @@ func (cache *MemoryCache[K, V]) Set(key K, value V, ttlSec float64) error {
 	}
 	cache.cache[key] = ValueWrapper[V]{value, expirationTimeNano}
 	cache.mutex.Unlock()
+	verifhook.Point("cache.sleeper.spawn", "key", key)
 
 	go func() {
 		cache.clock.Sleep(ttlDuration)
